@@ -20,7 +20,9 @@ Proof. induction 1 as [o|o l ops HB|]; [discriminate|eapply Blk_nonempty; eauto|
 Section DRUN.
 Variable kd : rkind.
 Lemma disk_J0 N ram disk L0 : 1 <= N -> 0 <= ram -> (2 <= N -> 1 <= ram) -> DiskBlk.DBlk ram 0 (N - 1) L0 ->
-  exists T, DiskBridge3.J N ram (map inj L0) kd ram disk T {| ob := ORevF kd N ram disk (init_r (map inj L0)); started := false |} mon0.
+  exists prev acts r, prevop L0 0 = Some prev /\ RevBlk.conv N 0 (Some prev) RevGen.init_c L0 = (acts, inl r) /\
+    DiskBridge3.J N ram (map inj L0) kd ram disk (RevBridge3.sumflen acts) (DiskBridge3.sumdw acts) (DiskBridge3.sumdr acts)
+      {| ob := ORevF kd N ram disk (init_r (map inj L0)); started := false |} mon0.
 Proof.
   intros HN Hram Hram1 HB. set (L := map inj L0).
   pose proof (DBlk_nonempty _ _ _ _ HB) as Hne.
@@ -45,11 +47,12 @@ Proof.
   assert (Hsn : RevBlk.snaps c' = []).
   { destruct (RevBlk.snaps c') as [|z l] eqn:E; [reflexivity|]. exfalso.
     destruct (proj1 (Hss z) (or_introl eq_refl)) as [Hin|[]]. unfold RevBlk.keys in Hin. rewrite Hst in Hin. exact Hin. }
-  exists (RevBridge3.sumflen acts).
-  apply (DiskBridge3.Jrun N ram L kd ram disk (RevBridge3.sumflen acts) 0%nat init_c [] X0 0 false mon0).
+  exists prev, acts, (c', Some lastop, length L0). split; [exact Hprev|]. split; [exact HR|].
+  apply (DiskBridge3.Jrun N ram L kd ram disk (RevBridge3.sumflen acts) (DiskBridge3.sumdw acts) (DiskBridge3.sumdr acts) 0%nat init_c [] X0 0 0 0 false mon0).
   - lia.
   - reflexivity.
   - unfold RxD, X0. cbn [DiskBlk.mx DiskBlk.dk map]. split; [|reflexivity]. unfold Rx, toMS, RevGen.init_x, mon0, x0. cbn. repeat split; reflexivity.
+  - split; reflexivity.
   - unfold NN, X0, RevGen.init_x. cbn. repeat split; try lia; try discriminate. intros f Hf0; injection Hf0 as <-; lia.
   - intros k0 v Hk. cbn in Hk. discriminate.
   - intros a b Hd. cbn in Hd. discriminate.
@@ -81,11 +84,11 @@ Proof.
   destruct (disk_seq N ram disk uf ub wd rd HN Hram Hram1) as (L0 & HL & HB).
   unfold run_case, Sched.construct, RevConv.construct. rewrite HL. cbn [bind].
   destruct (Z.ltb_spec N 1); [lia|]. destruct (Z.ltb_spec ram (Z.min 1 (N - 1))); [lia|]. cbn [bind].
-  destruct (disk_J0 KDiskRevolve N ram disk L0 HN Hram Hram1 HB) as [T HJ0].
-  pose proof (DiskBridge3.run_nexts2 N ram ltac:(lia) (map inj L0) KDiskRevolve ram disk T k _ _ HJ0) as Hrun.
+  destruct (disk_J0 KDiskRevolve N ram disk L0 HN Hram Hram1 HB) as (prev0 & acts0 & r0 & _ & _ & HJ0).
+  pose proof (DiskBridge3.run_nexts2 N ram ltac:(lia) (map inj L0) KDiskRevolve ram disk _ _ _ k _ _ HJ0) as Hrun.
   change (DiskBridge2.pD N ram) with (disk_xparams N ram) in Hrun.
   destruct (run_ops (disk_xparams N ram) _ mon0 (repeat Next k)) as [[s' m'] ls]. destruct Hrun as [HJ Hnr].
-  eexists _, _, _. split; [reflexivity|]. split; [exact Hnr|]. exact (DiskBridge3.J_verdict _ _ _ _ _ _ _ _ _ HJ).
+  eexists _, _, _. split; [reflexivity|]. split; [exact Hnr|]. exact (DiskBridge3.J_verdict _ _ _ _ _ _ _ _ _ _ _ HJ).
 Qed.
 Print Assumptions disk_revolve_run.
 
@@ -111,11 +114,11 @@ Proof.
   destruct (periodic_seq N ram disk uf ub wd rd HN Hram Hram1) as (L0 & HL & HB).
   unfold run_case, Sched.construct, RevConv.construct. rewrite HL. cbn [bind].
   destruct (Z.ltb_spec N 1); [lia|]. destruct (Z.ltb_spec ram (Z.min 1 (N - 1))); [lia|]. cbn [bind].
-  destruct (disk_J0 KPeriodic N ram disk L0 HN Hram Hram1 HB) as [T HJ0].
-  pose proof (DiskBridge3.run_nexts2 N ram ltac:(lia) (map inj L0) KPeriodic ram disk T k _ _ HJ0) as Hrun.
+  destruct (disk_J0 KPeriodic N ram disk L0 HN Hram Hram1 HB) as (prev0 & acts0 & r0 & _ & _ & HJ0).
+  pose proof (DiskBridge3.run_nexts2 N ram ltac:(lia) (map inj L0) KPeriodic ram disk _ _ _ k _ _ HJ0) as Hrun.
   change (DiskBridge2.pD N ram) with (disk_xparams N ram) in Hrun.
   destruct (run_ops (disk_xparams N ram) _ mon0 (repeat Next k)) as [[s' m'] ls]. destruct Hrun as [HJ Hnr].
-  eexists _, _, _. split; [reflexivity|]. split; [exact Hnr|]. exact (DiskBridge3.J_verdict _ _ _ _ _ _ _ _ _ HJ).
+  eexists _, _, _. split; [reflexivity|]. split; [exact Hnr|]. exact (DiskBridge3.J_verdict _ _ _ _ _ _ _ _ _ _ _ HJ).
 Qed.
 Print Assumptions periodic_run.
 
@@ -125,12 +128,12 @@ Lemma disk_cfg_terminates kd N ram disk L0 k : 1 <= N -> 0 <= ram -> (2 <= N -> 
   let '(s', m, ls) := run_ops (disk_xparams N ram) {| ob := ORevF kd N ram disk (init_r (map inj L0)); started := false |} mon0 (repeat Next k) in
   no_raise ls /\ DiskBridge3.leftover_or_ok m /\ is_exhausted s' = true.
 Proof.
-  intros HN Hram Hram1 HB Hk. destruct (disk_J0 kd N ram disk L0 HN Hram Hram1 HB) as [T HJ0].
-  pose proof (DiskBridge3.run_nexts2 N ram ltac:(lia) (map inj L0) kd ram disk T k _ _ HJ0) as Hrun.
-  pose proof (DiskBridge3.run_nexts2_fin N ram ltac:(lia) (map inj L0) kd ram disk T k _ _ HJ0) as Hfin.
+  intros HN Hram Hram1 HB Hk. destruct (disk_J0 kd N ram disk L0 HN Hram Hram1 HB) as (prev0 & acts0 & r0 & _ & _ & HJ0).
+  pose proof (DiskBridge3.run_nexts2 N ram ltac:(lia) (map inj L0) kd ram disk _ _ _ k _ _ HJ0) as Hrun.
+  pose proof (DiskBridge3.run_nexts2_fin N ram ltac:(lia) (map inj L0) kd ram disk _ _ _ k _ _ HJ0) as Hfin.
   change (DiskBridge2.pD N ram) with (disk_xparams N ram) in Hrun, Hfin.
   destruct (run_ops (disk_xparams N ram) _ mon0 (repeat Next k)) as [[s' m'] ls]. destruct Hrun as [HJ Hnr]. cbn [fst] in Hfin.
-  split; [exact Hnr|]. split; [exact (DiskBridge3.J_verdict _ _ _ _ _ _ _ _ _ HJ)|]. apply Hfin. right.
+  split; [exact Hnr|]. split; [exact (DiskBridge3.J_verdict _ _ _ _ _ _ _ _ _ _ _ HJ)|]. apply Hfin. right.
   unfold RevBridge3.muS. cbn [ob init_r finished idx pend length]. rewrite map_length. lia.
 Qed.
 Theorem disk_revolve_terminates N ram disk uf ub wd rd : 1 <= N -> 0 <= ram -> (2 <= N -> 1 <= ram) ->
